@@ -362,8 +362,9 @@ DELAY_ATTRS = ["initial_backoff_ms", "retry_backoff_ms", "fatal_backoff_ms", "he
 class Impl(object):
     """One case = one fresh object of the real class."""
 
-    def __init__(self, kind, delays=None, use_defaults=False):
+    def __init__(self, kind, delays=None, use_defaults=False, salt=0):
         import afkak._group as G
+        self.salt = salt           # which concrete class stands for "other KafkaError" / "non-Kafka exception" (drawn per history)
         self.G = G
         self.kind = kind
         self.trace = []
@@ -465,7 +466,7 @@ class Impl(object):
             if res - 100 >= NKINDS:
                 return
             self.delivered = True
-            r.d.errback(Failure(make_exc(res - 100, r.rid)))
+            r.d.errback(Failure(make_exc(res - 100, self.salt + r.rid)))
         else:
             self.delivered = True
             r.d.callback(ok_value)
@@ -556,7 +557,7 @@ class Impl(object):
             elif c == E_CFAIL:
                 if 0 <= ev[1] < len(self.consumers) and 0 <= ev[2] < NKINDS and self.consumers[ev[1]].can_fail_start():
                     self.delivered = True
-                    self.consumers[ev[1]].drv_start_fails(make_exc(ev[2], ev[1]))
+                    self.consumers[ev[1]].drv_start_fails(make_exc(ev[2], self.salt + ev[1]))
             elif c == E_CSHUT:
                 if 0 <= ev[1] < len(self.consumers) and ev[2] in (0, 1) and self.consumers[ev[1]].shutdown_pending():
                     self.delivered = True
@@ -599,11 +600,11 @@ class Impl(object):
         return [c.cid for c in self.consumers if c._start_d is not None]
 
 
-def run_impl(line, delays=None, use_defaults=False, collect=None):
+def run_impl(line, delays=None, use_defaults=False, collect=None, salt=0):
     """Run a case line on the real implementation; returns (trace, problems)."""
     kind, evs = parse_events(line)
     logging.getLogger("afkak").setLevel(logging.CRITICAL + 1)
-    im = Impl(kind, delays, use_defaults)
+    im = Impl(kind, delays, use_defaults, salt)
     try:
         for ev in evs:
             im.apply(ev)
@@ -614,12 +615,12 @@ def run_impl(line, delays=None, use_defaults=False, collect=None):
         im.close()
 
 
-def run_impl_steps(line, delays=None, use_defaults=False):
+def run_impl_steps(line, delays=None, use_defaults=False, salt=0):
     """Run a case line on the real implementation; returns (trace, problems, steps) with one record per event:
     {"ev", "out" (list of output tuples), "delivered", "obs", "hb_before", "timers_before"}"""
     kind, evs = parse_events(line)
     logging.getLogger("afkak").setLevel(logging.CRITICAL + 1)
-    im = Impl(kind, delays, use_defaults)
+    im = Impl(kind, delays, use_defaults, salt)
     steps = []
     try:
         for ev in evs:
@@ -702,7 +703,8 @@ def gen_history(rnd, prof=None, hook=None):
     enabled-event set).  Returns (kind, events, trace, problems)."""
     prof = prof or Profile(rnd)
     logging.getLogger("afkak").setLevel(logging.CRITICAL + 1)
-    im = Impl(prof.kind)
+    salt = rnd.randrange(9 * 5 * 7)
+    im = Impl(prof.kind, salt=salt)
     evs = []
     generation = rnd.randint(0, 3)
     last_asg = []
@@ -732,6 +734,9 @@ def gen_history(rnd, prof=None, hook=None):
                 cands.append((prof.stop_rate * 12, ("stop",)))
             if prof.junk:
                 cands.append((prof.junk * 10, ("junk",)))
+            if started and im.start_fired and im.start_fired[-1] and not pend and not im.active_join_timers() and not im.heartbeat_armed() \
+                    and not any(c.shutdown_pending() for c in im.consumers) and not prof.restart and len(evs) > 3:
+                break          # stop() has completed and nothing is left: further events are RestopError calls only
             if not cands:
                 cands.append((1.0, ("junk",)))
             tot = sum(w for w, _ in cands)
@@ -786,7 +791,7 @@ def gen_history(rnd, prof=None, hook=None):
             im.apply(ev)
             if hook is not None:
                 hook(im, ev)
-        return prof.kind, evs, im.trace, im.problems
+        return prof.kind, evs, im.trace, im.problems, salt
     finally:
         im.close()
 
@@ -815,6 +820,28 @@ def gen_junk(rnd, im):
 # ------------------------------------------------------------------ shared by C16.py / C17.py
 OBS_LEN = 10          # entries of Model.GroupObs.obs that the harness can observe; the model prints 5 more (model-only)
 OBS_MODEL_LEN = 15
+
+
+COMMUTING = (9, 12, 16, 17)     # CancelTimer, StopConsumer, ResetCoordinatorMetadata, CancelRequest: see Model.GroupObs.canon_step
+
+
+def canon_trace(tr):
+    """each step's outputs with every maximal run of mutually independent calls sorted (same rule as Model.GroupObs.canon_step)"""
+    out = []
+    for step in split_trace(tr):
+        out.append(-1)
+        run = []
+        for o in step:
+            if isinstance(o[0], int) and o[0] in COMMUTING:
+                run.append(tuple(o))
+            else:
+                for x in sorted(run):
+                    out.extend(x)
+                run = []
+                out.extend(x for x in o if x != "?")
+        for x in sorted(run):
+            out.extend(x)
+    return out
 
 
 def flatten_obs(steps):
@@ -859,7 +886,13 @@ def corpus_cases():
         (1, stable + [(E_STOP,), (E_STOP,), (E_CSHUT, 0, 0), (E_LEAVE, 4, 0), (E_START,)]),                    # double stop, restart
         (0, [(E_STOP,), (E_START,), (E_START,), (E_LOOKUP, 0, 1), (E_FIRE, 0), (E_LOOKUP, 1, 100 + K_TIMEOUT), (E_FIRE, 1)]),
     ]
-    return cs
+    out = [(k, evs, 0) for k, evs in cs]
+    # transient metadata / partition-lookup failures, one per concrete class standing for "other KafkaError" (salt + rid selects the class)
+    for cls in range(9):
+        out.append((1, [(E_START,), (E_LOOKUP, 0, 0), (E_META, 1, 100 + K_OTHERKAFKA), (E_FIRE, 0), (E_LOOKUP, 2, 0), (E_META, 3, 0)], (cls - 1) % 9))
+        out.append((1, [(E_START,), (E_LOOKUP, 0, 0), (E_META, 1, 0), (E_JOIN, 2, 0, 1, 1, 1), (E_PARTS, 3, 100 + K_OTHERKAFKA), (E_FIRE, 0)], (cls - 3) % 9))
+    out.append((0, [(E_START,), (E_LOOKUP, 0, 0), (E_META, 1, 100 + K_TIMEOUT), (E_FIRE, 0)], 0))
+    return out
 
 
 def doc_delay(k):
@@ -887,7 +920,7 @@ def shrink_events(kind, evs, bad, budget=400):
     return evs
 
 
-def enumerate_small_scope(kind, depth, alphabet_hook=None, limit=200000):
+def enumerate_small_scope(kind, depth, alphabet_hook=None, limit=200000, prefix=None):
     """All event sequences up to `depth` over the events ENABLED in the implementation's current state (pending requests x
     {ok, RebalanceInProgress, non-Kafka}, armed timers, tick, stop, consumer events), run on the implementation.
     Yields event lists (each prefix once).  Bounded validation of the tie, never the proof."""
@@ -942,8 +975,187 @@ def enumerate_small_scope(kind, depth, alphabet_hook=None, limit=200000):
             for x in rec(prefix + [ev], stopped or ev[0] == E_STOP):
                 yield x
 
-    for x in rec([(E_START,)], False):
+    for x in rec(list(prefix) if prefix else [(E_START,)], False):
         yield x
+
+
+class HonestCoordinator(object):
+    """The broker side of the group protocol as the Kafka protocol guide describes it, for ONE real member plus phantom others:
+    a generation counter and a member table.  JoinGroup with a non-empty member id the table does not know is UNKNOWN_MEMBER_ID;
+    SyncGroup / Heartbeat with a stale generation are ILLEGAL_GENERATION, from an unknown member UNKNOWN_MEMBER_ID; a pending
+    rebalance answers heartbeats REBALANCE_IN_PROGRESS until the member has re-joined.  Faults are things that really happen to a
+    coordinator: it evicts the member (session expiry), another member triggers a rebalance, it moves / is briefly unavailable,
+    a request times out."""
+
+    def __init__(self, rnd):
+        self.rnd = rnd
+        self.generation = rnd.randint(0, 3)
+        self.known = set()
+        self.next_member = rnd.randint(1, 4)
+        self.rebalancing = False
+        self.assignment = {}          # generation -> list of (t, p)
+        self.glitch = None            # one-shot error for the next coordinator request: kind
+
+    def evict(self, member):
+        self.known.discard(member)
+        self.generation += 1
+
+    def rebalance(self):
+        self.rebalancing = True
+
+    def reply(self, im, rid, kind):
+        """the event answering pending request rid of the given kind"""
+        info = im.reqs[rid].info
+        g = self.glitch
+        if kind == "lookup":
+            if g in (K_CNA, K_NOTCOORD, K_TIMEOUT):
+                self.glitch = None
+                return (E_LOOKUP, rid, 100 + g)
+            return (E_LOOKUP, rid, 0)
+        if kind in ("meta", "parts"):       # transient metadata failure: no broker reachable / request timed out
+            if g in (K_OTHERKAFKA, K_TIMEOUT):
+                self.glitch = None
+                return (E_META if kind == "meta" else E_PARTS, rid, 100 + g)
+            return (E_META, rid, 0) if kind == "meta" else (E_PARTS, rid, 0)
+        if g is not None and kind in ("join", "sync", "hb"):
+            self.glitch = None
+            ev = {"join": E_JOIN, "sync": E_SYNC, "hb": E_HBREPLY}[kind]
+            return (ev, rid, 100 + g, 0, 0, 0) if kind == "join" else ((ev, rid, 100 + g, []) if kind == "sync" else (ev, rid, 100 + g))
+        if kind == "join":
+            member = info[1]
+            if member and member not in self.known:
+                return (E_JOIN, rid, 100 + K_UNKMEMBER, 0, 0, 0)
+            if not member:
+                member = self.next_member
+                self.next_member += 1
+            self.known.add(member)
+            self.generation += 1
+            self.rebalancing = False
+            universe = [(t, p) for t in range(3) for p in range(3)]
+            self.assignment[self.generation] = self.rnd.sample(universe, self.rnd.randint(0, 4))
+            return (E_JOIN, rid, 0, self.generation, member, 1 if self.rnd.random() < 0.4 else 0)
+        if kind == "sync":
+            gen, member = info[1], info[2]
+            if member not in self.known:
+                return (E_SYNC, rid, 100 + K_UNKMEMBER, [])
+            if gen != self.generation:
+                return (E_SYNC, rid, 100 + K_ILLGEN, [])
+            return (E_SYNC, rid, 0, list(self.assignment.get(gen, [])))
+        if kind == "hb":
+            gen, member = info[1], info[2]
+            if member not in self.known:
+                return (E_HBREPLY, rid, 100 + K_UNKMEMBER)
+            if gen != self.generation:
+                return (E_HBREPLY, rid, 100 + K_ILLGEN)
+            if self.rebalancing:
+                return (E_HBREPLY, rid, 100 + K_REBALANCE)
+            return (E_HBREPLY, rid, 0)
+        return (E_LEAVE, rid, 0)
+
+
+def settled_verdict(kind, im, final, ok_heartbeats):
+    member, gen = mem_int(im.obj.member_id), gen_int(im.obj.generation_id)
+    have = sorted((int(c.topic[1:]), c.partition) for c in im.consumers if c._start_d is not None) if kind == 1 else []
+    want = [tuple(x) for x in final["assignment"]] if kind == 1 else []
+    if ok_heartbeats < 2:
+        return "faults ceased %d fair steps ago and the member is not heartbeating successfully" % final["budget"]
+    if member not in final["known"] or gen != final["generation"]:
+        return "member holds generation %d as %d, the coordinator is in generation %d with members %r" % (gen, member, final["generation"], final["known"])
+    if have != want:
+        return "member consumes %r, its assignment in generation %d is %r" % (have, final["generation"], want)
+    return None
+
+
+def gen_closed_loop(rnd, settle_budget=80):
+    """One history against an honest coordinator: a fault phase (evictions, rebalances, coordinator moves, time-outs, consumer commit
+    errors, arbitrary scheduling), then faults cease and the schedule is fair (oldest reply first, then consumer shutdowns, then the
+    armed calls, then the heartbeat tick).  Returns (kind, events, verdict) - verdict None if the member is stable (in the coordinator's
+    current generation under a known member id, consumers = its assignment, heartbeats answered ok) within settle_budget fair steps."""
+    logging.getLogger("afkak").setLevel(logging.CRITICAL + 1)
+    kind = 1 if rnd.random() < 0.8 else 0
+    salt = rnd.randrange(9 * 5 * 7)
+    im = Impl(kind, salt=salt)
+    hc = HonestCoordinator(rnd)
+    evs = []
+
+    def do(ev):
+        evs.append(ev)
+        im.apply(ev)
+
+    try:
+        do((E_START,))
+        nfault = rnd.choice([0, 1, 2, 3, 5])
+        for _ in range(rnd.choice([10, 20, 40])):
+            pend = im.pending_requests()
+            choices = []
+            for rid, k in pend:
+                choices.append(("reply", rid, k))
+            for t in im.active_join_timers():
+                choices.append(("fire", t))
+            if im.heartbeat_armed():
+                choices.append(("tick",))
+            for c in im.consumers:
+                if c.shutdown_pending():
+                    choices.append(("cshut", c.cid))
+            if nfault > 0 and rnd.random() < 0.25:
+                nfault -= 1
+                f = rnd.choice(["evict", "evict", "rebalance", "glitch", "glitch", "cfail"])
+                if f == "evict":
+                    hc.evict(mem_int(im.obj.member_id))
+                elif f == "rebalance":
+                    hc.rebalance()
+                elif f == "glitch":
+                    hc.glitch = rnd.choice([K_CNA, K_NOTCOORD, K_TIMEOUT, K_OTHERKAFKA, K_INCONSISTENT, K_REBALANCE])
+                else:
+                    live = [c for c in im.consumers if c.can_fail_start() and not c.shutdown_pending()]
+                    if live:
+                        do((E_CFAIL, rnd.choice(live).cid, rnd.choice([K_ILLGEN, K_UNKMEMBER, K_REBALANCE])))
+                continue
+            if not choices:
+                break
+            ch = rnd.choice(choices)
+            if ch[0] == "reply":
+                do(hc.reply(im, ch[1], ch[2]))
+            elif ch[0] == "fire":
+                do((E_FIRE, ch[1]))
+            elif ch[0] == "tick":
+                do((E_TICK,))
+            else:
+                do((E_CSHUT, ch[1], 0))
+        hc.glitch = None
+        # ---- faults have ceased: fair schedule
+        ok_heartbeats = 0
+        for _ in range(settle_budget):
+            pend = im.pending_requests()
+            if pend:
+                rid, k = pend[0]
+                ev = hc.reply(im, rid, k)
+                do(ev)
+                if k == "hb":
+                    ok_heartbeats = ok_heartbeats + 1 if ev[2] == 0 else 0
+                continue
+            sh = [c for c in im.consumers if c.shutdown_pending()]
+            if sh:
+                do((E_CSHUT, sh[0].cid, 0))
+                continue
+            tm = im.active_join_timers()
+            if tm:
+                do((E_FIRE, tm[0]))
+                continue
+            if im.heartbeat_armed():
+                if ok_heartbeats >= 2:
+                    break
+                do((E_TICK,))
+                continue
+            break
+        final = {"generation": hc.generation, "known": sorted(hc.known), "assignment": sorted(set(hc.assignment.get(hc.generation, []))),
+                 "budget": settle_budget}
+        verdict = settled_verdict(kind, im, final, ok_heartbeats)
+        final["ok_heartbeats"] = ok_heartbeats
+        final["salt"] = salt
+        return kind, evs, verdict, final
+    finally:
+        im.close()
 
 
 def check_histories(ck, monitor, tied, model="group", module="Model.GroupObs"):
@@ -953,33 +1165,54 @@ def check_histories(ck, monitor, tied, model="group", module="Model.GroupObs"):
     rnd = random.Random(ck.seed)
     thorough = ck.tier == "thorough"
     n_gen = 12000 if thorough else 700
-    histories = [(k, evs, "corpus") for k, evs in corpus_cases()]
+    histories = [(k, evs, "corpus", salt) for k, evs, salt in corpus_cases()]
     for _ in range(n_gen):
-        kind, evs, _, _ = gen_history(rnd)
-        histories.append((kind, evs, "generated"))
+        kind, evs, _, _, salt = gen_history(rnd)
+        histories.append((kind, evs, "generated", salt))
+    unsettled = []
+    for _ in range(n_gen // 3):
+        kind, evs, verdict, final = gen_closed_loop(rnd)
+        histories.append((kind, evs, "honest-coordinator", final["salt"]))
+        ck.hist("honest-coordinator:" + ("settled" if verdict is None else "NOT settled"))
+        if verdict is not None:
+            unsettled.append((kind, evs, verdict, final))
+    ck.cov["honest_coordinator_unsettled"] = len(unsettled)
+    for kind, evs, verdict, final in unsettled[:2]:
+        ck.violation({"kind": "monitor", "failures": [[len(evs) - 1, "C17_bounded_rejoin (honest coordinator, fair schedule): " + verdict]],
+                      "case_kind": kind, "events": evs, "salt": final["salt"],
+                      "impl_trace": pretty_trace(kind, evs, run_impl(encode_case(kind, evs), salt=final["salt"])[0]),
+                      "honest_coordinator_final_state": final, "replay_op": "history"})
     if thorough:
-        for kind, depth in ((1, 8), (0, 8)):
-            for evs in enumerate_small_scope(kind, depth, limit=60000):
-                histories.append((kind, evs, "exhaustive-depth-%d" % depth))
+        for kind, depth in ((1, 13), (0, 13)):
+            for evs in enumerate_small_scope(kind, depth, limit=600000):
+                histories.append((kind, evs, "exhaustive-depth-%d" % depth, 0))
+        # ... and from a stable member / a member in the middle of a rejoin (so that a second generation is reached)
+        pre = corpus_cases()[3][1][:8]
+        for prefix, extra in ((pre[:5], 7), (pre, 7)):
+            for evs in enumerate_small_scope(1, len(prefix) + extra, limit=600000, prefix=prefix):
+                histories.append((1, evs, "exhaustive-from-prefix-%d" % len(prefix), 0))
 
-    def run_case(kind, evs):
+    def run_case(kind, evs, salt=0):
         line = encode_case(kind, evs)
-        tr, problems, steps = run_impl_steps(line)
+        tr, problems, steps = run_impl_steps(line, salt=salt)
         return line, tr, problems, steps
 
+    cur_salt = [0]
+
     def is_bad(kind, evs):
-        _, _, problems, steps = run_case(kind, evs)
+        _, _, problems, steps = run_case(kind, evs, cur_salt[0])
         return bool(monitor(kind, steps)[0]) or bool(problems)
 
     cases, impl_tr, impl_obs, meta = [], [], [], []
     totals = {}
     nviol = 0
-    for kind, evs, origin in histories:
-        line, tr, problems, steps = run_case(kind, evs)
+    for kind, evs, origin, salt in histories:
+        line, tr, problems, steps = run_case(kind, evs, salt)
         cases.append(line)
-        impl_tr.append(tr)
+        impl_tr.append(canon_trace(tr))
         impl_obs.append(flatten_obs(steps))
-        meta.append((kind, evs, origin))
+        meta.append((kind, evs, origin, salt))
+        cur_salt[0] = salt
         ck.hist("origin:" + origin)
         ck.hist("kind:" + ("ConsumerGroup" if kind == 1 else "Coordinator"))
         for ev in evs:
@@ -994,11 +1227,11 @@ def check_histories(ck, monitor, tied, model="group", module="Model.GroupObs"):
             nviol += 1
             if nviol <= 3:
                 small = shrink_events(kind, evs, is_bad)
-                l2, t2, p2, s2 = run_case(kind, small)
-                ck.violation({"kind": "monitor", "failures": (monitor(kind, s2)[0] + p2) or bad, "case_kind": kind, "events": small,
+                l2, t2, p2, s2 = run_case(kind, small, salt)
+                ck.violation({"kind": "monitor", "failures": (monitor(kind, s2)[0] + p2) or bad, "case_kind": kind, "events": small, "salt": salt,
                               "impl_trace": pretty_trace(kind, small, t2), "case_line": l2, "origin": origin, "replay_op": "history"})
             else:
-                ck.violation({"kind": "monitor", "failures": bad[:3], "case_kind": kind, "events": evs, "case_line": line, "replay_op": "history"})
+                ck.violation({"kind": "monitor", "failures": bad[:3], "case_kind": kind, "events": evs, "salt": salt, "case_line": line, "replay_op": "history"})
 
     describe = lambda c: {"kind": c[0], "line": c[:60]}
     nontrivial = lambda c, o: sum(1 for x in o if x == -1) >= 4 and any(x in (8, 13) for x in o)
@@ -1019,32 +1252,33 @@ def check_histories(ck, monitor, tied, model="group", module="Model.GroupObs"):
     for i in sorted(set(diffs + odiffs))[:3]:
         if ck.violations:
             break
-        kind, evs, origin = meta[i]
+        kind, evs, origin, salt = meta[i]
+        cur_salt[0] = salt
         found = None
         for j in range(1, len(evs) + 1):      # a difference alone is not a violation: look for a failing input inside it
             if is_bad(kind, evs[:j]):
                 found = evs[:j]
                 break
         if found:
-            l2, t2, p2, s2 = run_case(kind, found)
+            l2, t2, p2, s2 = run_case(kind, found, salt)
             ck.violation({"kind": "monitor (found from a correspondence difference)", "failures": monitor(kind, s2)[0] + p2, "case_kind": kind,
-                          "events": found, "impl_trace": pretty_trace(kind, found, t2), "replay_op": "history"})
+                          "events": found, "salt": salt, "impl_trace": pretty_trace(kind, found, t2), "replay_op": "history"})
         else:
             ck.violation({"kind": "correspondence broken", "correspondence": "corr:group:" + ("trace" if i in diffs else "observations"),
-                          "theorems_no_longer_tied": tied, "case_kind": kind, "events": evs,
-                          "impl_trace": pretty_trace(kind, evs, impl_tr[i]), "model_trace": pretty_trace(kind, evs, mo[i]),
+                          "theorems_no_longer_tied": tied, "case_kind": kind, "events": evs, "salt": salt,
+                          "impl_trace_canonical": pretty_trace(kind, evs, impl_tr[i]), "model_trace_canonical": pretty_trace(kind, evs, mo[i]),
                           "impl_obs": impl_obs[i], "model_obs": observable_part(mobs[i]), "replay_op": "history"}, no_input=True)
     # documented delays: the float handed to callLater, bit for bit, with default and non-default constructor arguments
     for delays, dflt in ((None, True), ({"initial_backoff_ms": 700, "retry_backoff_ms": 33, "fatal_backoff_ms": 12345.5, "heartbeat_interval_ms": 2500}, False)):
-        for kind, evs in corpus_cases()[:10]:
-            tr2, probs = run_impl(encode_case(kind, evs), delays=delays, use_defaults=dflt)
+        for kind, evs, salt in corpus_cases()[:10]:
+            tr2, probs = run_impl(encode_case(kind, evs), delays=delays, use_defaults=dflt, salt=salt)
             for p in probs:
                 ck.violation({"kind": "delay", "what": p, "delays": delays or "defaults", "case_kind": kind, "events": evs, "replay_op": "history"})
     ck.cov["monitor_totals"] = totals
     ck.cov["rule"] = ("histories = hand-written corpus (one per theorem / repaired defect / residual finding) + state-aware seeded generator "
                       "(random.Random(VERIF_SEED): replies and failures of every class for every pending request, timers and heartbeat ticks in any order, "
                       "stop()/start() at random points, consumer failures and slow/failed shutdowns, 10% late/duplicate/foreign events)"
-                      + (" + every maximal sequence of implementation-enabled events up to depth 8 over a reduced alphabet" if thorough else "")
+                      + (" + every maximal sequence of implementation-enabled events up to depth 13 over a reduced alphabet" if thorough else "")
                       + ". A history is non-trivial if it has >= 4 events and schedules a call or fires the start Deferred; distinct = distinct case lines.")
     ck.cov["trusted_base"] += ["correspondence harness harness/props/group_lib.py + vlib.py", "extracted OCaml runner (ExtrOcamlBasic) cross-checked by vm_compute sample"]
     return run_case
@@ -1058,9 +1292,25 @@ def replay_history(rp, monitor):
         if e and e[0] == E_SYNC:
             e[3] = [tuple(x) for x in e[3]]
         evs.append(tuple(e))
+    salt = rp.get("salt", 0)
     line = encode_case(kind, evs)
-    tr, problems, steps = run_impl_steps(line)
+    tr, problems, steps = run_impl_steps(line, salt=salt)
     print(pretty_trace(kind, evs, tr))
     bad, facts = monitor(kind, steps)
+    final = rp.get("honest_coordinator_final_state")
+    if final:                 # re-evaluate the bounded-rejoin verdict: re-run the recorded fair schedule, compare with the coordinator's final state
+        logging.getLogger("afkak").setLevel(logging.CRITICAL + 1)
+        im = Impl(kind, salt=salt)
+        try:
+            okhb = 0
+            for ev in evs:
+                im.apply(ev)
+                if ev[0] == E_HBREPLY and im.delivered:
+                    okhb = okhb + 1 if ev[2] == 0 else 0
+            v = settled_verdict(kind, im, final, okhb)
+        finally:
+            im.close()
+        if v:
+            bad = list(bad) + [(len(evs) - 1, "C17_bounded_rejoin (honest coordinator, fair schedule): " + v)]
     print("monitor:", bad or "no failure", "| problems:", problems or "none")
     return 1 if (bad or problems) else 0
